@@ -947,4 +947,13 @@ theorem charPost_values :
     simp only [charPost]
     exact BitVec.toInt_signExtend_of_le (by decide)
 
+/-- `cur->val = (uint32_t)cur->val` (the `U'…'` arm; translated as `.mask 0xFFFFFFFF`): the `int` returned by
+    `read_char_literal` is zero-extended — the value of the constant as a `char32_t` (unsigned) -/
+theorem charPost_mask32 (c : BitVec 32) : (charPost (.mask 0xFFFFFFFF) c).toNat = c.toNat := by
+  simp only [charPost, BitVec.toNat_and, BitVec.toNat_ofNat, BitVec.toNat_signExtend, BitVec.toNat_setWidth]
+  have h32 : (4294967295 : Nat) % 2 ^ 64 = 2 ^ 32 - 1 := by decide
+  rw [h32, Nat.and_two_pow_sub_one_eq_mod]
+  have := c.isLt
+  cases c.msb <;> simp <;> omega
+
 end ChibiVerif.Lemmas.Readers
